@@ -2,6 +2,7 @@
 (***************************************************************************)
 (* The URL VALUE MACHINE: the state is one URL value (the five stored      *)
 (* parts); Init = every seed string through the auto-encoding constructor; *)
+(* and every URL.build keyword combination of Seeds!BuildKws;              *)
 (* one action per public modifier, arguments drawn from small text sets    *)
 (* (delimiters of every component, escapes valid and malformed, non-ASCII, *)
 (* dot segments).  Transitions are computed by Level I (ImplOps!Apply);    *)
@@ -25,8 +26,12 @@ vars == <<u, last, depth>>
 ObsM(x) == [f \in AccessorNames \cup {"val"} |->
               IF f = "val" THEN [ok |-> <<x.scheme, x.netloc, x.path, x.query, x.fragment>>] ELSE AccM(f, x)]
 
-Init == /\ \E s \in SeedStrings : LET r == EncodeUrl("c", s) IN IsOK(r) /\ u = r.ok
-        /\ last = [act |-> "seed"] /\ depth = 0
+Init == /\ depth = 0
+        /\ \/ (/\ \E s \in SeedStrings : LET r == EncodeUrl("c", s) IN IsOK(r) /\ u = r.ok
+               /\ last = [act |-> "seed"])
+           \* URL.build: the other way a chain starts (a keyword combination Level I rejects is no initial state)
+           \/ \E kw \in BuildKws : LET r == Build("c", kw) IN
+                 IsOK(r) /\ u = r.ok /\ last = [act |-> "build", args |-> [op |-> "build", kw |-> kw]]
 
 TextStep(act) == \E v \in ArgTexts :
    \/ (act \in {"with_user", "with_password", "with_fragment"} /\ LET a == [op |-> act, v |-> <<v>>] IN
@@ -37,6 +42,12 @@ TextStep(act) == \E v \in ArgTexts :
          LET r == Apply("c", act, a, u, u) IN IsOK(r) /\ u' = r.ok /\ last' = [act |-> act, args |-> a, prev |-> u])
    \/ (act = "with_query" /\ LET a == [op |-> act, q |-> [form |-> "str", s |-> v, pairs |-> <<>>]] IN
          LET r == Apply("c", act, a, u, u) IN IsOK(r) /\ u' = r.ok /\ last' = [act |-> act, args |-> a, prev |-> u])
+   \/ (act \in {"extend_query", "update_query"} /\ LET a == [op |-> act, q |-> [form |-> "str", s |-> v, pairs |-> <<>>]] IN
+         LET r == Apply("c", act, a, u, u) IN IsOK(r) /\ u' = r.ok /\ last' = [act |-> act, args |-> a, prev |-> u])
+   \/ (act = "update_query_pairs" /\ LET a == [op |-> "update_query", q |-> [form |-> "pairs", s |-> <<>>, pairs |-> << <<v, [t |-> "str", s |-> v]>>, <<<<120>>, [t |-> "str", s |-> v]>> >>]] IN
+         LET r == Apply("c", "update_query", a, u, u) IN IsOK(r) /\ u' = r.ok /\ last' = [act |-> "update_query", args |-> a, prev |-> u])
+   \/ (act = "without_query_params" /\ LET a == [op |-> act, keys |-> <<v, <<120>>>>] IN
+         LET r == Apply("c", act, a, u, u) IN IsOK(r) /\ u' = r.ok /\ last' = [act |-> act, args |-> a, prev |-> u])
    \/ (act = "with_query_pairs" /\ LET a == [op |-> "with_query", q |-> [form |-> "pairs", s |-> <<>>, pairs |-> << <<v, [t |-> "str", s |-> v]>> >>]] IN
          LET r == Apply("c", "with_query", a, u, u) IN IsOK(r) /\ u' = r.ok /\ last' = [act |-> "with_query", args |-> a, prev |-> u])
 Step(act, a) == LET r == Apply("c", act, a, u, u) IN IsOK(r) /\ u' = r.ok /\ last' = [act |-> act, args |-> a, prev |-> u]
@@ -44,7 +55,8 @@ JoinStep == \E s \in RefStrings : LET rr == EncodeUrl("c", s) IN
    IsOK(rr) /\ u' = Join(u, rr.ok) /\ last' = [act |-> "join", args |-> [op |-> "join", ref |-> [op |-> "ctor", s |-> s, encoded |-> FALSE]], prev |-> u]
 Next ==
   /\ depth < MaxDepth /\ depth' = depth + 1
-  /\ \/ \E act \in {"with_user", "with_password", "with_fragment", "with_name", "with_path", "truediv", "with_query", "with_query_pairs"} : TextStep(act)
+  /\ \/ \E act \in {"with_user", "with_password", "with_fragment", "with_name", "with_path", "truediv", "with_query", "with_query_pairs",
+                     "extend_query", "update_query", "update_query_pairs", "without_query_params"} : TextStep(act)
      \/ \E v \in {<<>>} : Step("with_user", [op |-> "with_user", v |-> <<>>])
      \/ Step("with_password", [op |-> "with_password", v |-> <<>>]) \/ Step("with_fragment", [op |-> "with_fragment", v |-> <<>>])
      \/ \E h \in HostArgs : Step("with_host", [op |-> "with_host", v |-> h])
@@ -84,6 +96,6 @@ Inv_C13 == C13_PartsRecompose(O) /\ C13_NameIsLast(O) /\ C13_SuffixIsTail(O)
 Inv_C16 == C16_LowerAscii(O) /\ (C16_Ipv6Canonical(O) \/ EmptyHostRegion(u))
 Inv_C17 == C17_PortFallback(O) /\ C17_Range(O) /\ (EmptyHostRegion(u) \/ C17_StrPort(O))
 \* ------------------------------------------------------------------ action property: frame conditions (C11)
-Frame == last.act \in {"seed"} \/ ~C11_Applies(last.act) \/ EmptyHostRegion(last.prev)
+Frame == last.act \in {"seed", "build"} \/ ~C11_Applies(last.act) \/ EmptyHostRegion(last.prev)
          \/ C11_Frame(last.act, last.args, ObsM(last.prev), O)
 =============================================================================
